@@ -44,7 +44,13 @@ FIELDS = {
     ("IR", "_local_uuid_cache"): ("_local_uuid_cache", "dict:val", None),
     ("AuxDataContainer", "aux_data"): ("aux_data", "dict:val", None),
     ("$IntervalTree", "$content"): ("$tree_content", "set", None),
+    ("LazyIntervalTree", "_interval_index"): ("LIT._interval_index", "val", "$IntervalTree"),
 }
+
+# Region R: the internals of the lazily maintained indexes.  Lookups may update them (benign: the
+# abstract structure is untouched); loops over lookups are treated as comprehensions over the non-R heap
+# with the region invariant carried across iterations (DESIGN 2.2 / 3.4).
+REGION_KEYS = ("LIT._interval_index", "_interval_events", "$tree_content", "$alive")
 
 # static classes of 'val' fields (for method resolution only)
 FIELD_CLASSES = {
@@ -59,7 +65,6 @@ FIELD_CLASSES = {
 FIELD_CLASSES_BY_CLASS = {
     ("Section", "_interval_index"): ("LazyIntervalTree", "ByteInterval"),
     ("ByteInterval", "_interval_tree"): ("LazyIntervalTree", "ByteBlock"),
-    ("LazyIntervalTree", "_interval_index"): "$IntervalTree",
     ("Section._ByteIntervalSet", "_node"): "Section",
     ("ByteInterval._BlockSet", "_node"): "ByteInterval",
     ("Module._NodeSet", "_node"): "Module",
@@ -139,7 +144,7 @@ class Schema:
         for (k, knd, _c) in FIELDS.values():
             if k == base:
                 kind = knd
-        if kind is None:
+        if kind is None or kind == "val":
             return z3.ArraySort(Int, Val)
         if kind == "set":
             return z3.ArraySort(Int, SetSort)
@@ -388,6 +393,20 @@ class Schema:
             return SV("iv", VIv(b, e, d), x=args[2].cls)
         if name == "IntervalTree":
             return self.new_tree(eng, args, st)
+        if name == "itertools.chain.from_iterable":
+            outer = eng.bags_of(args[0], st)
+            res = []
+            for ob in outer:
+                inner = eng.bags_of(ob.elem, st)
+                for ib in inner:
+                    news, cond, elem = ib.instantiate("ch")
+                    res.append(Bag(ob.binders + news, z3.And(ob.cond, cond), elem, tag=ib.tag))
+            return SV("gen", x=res)
+        if name == "itertools.chain":
+            res = []
+            for a in args:
+                res += eng.bags_of(a, st)
+            return SV("gen", x=res)
         if base == "auto":
             raise Unsupported("enum.auto outside class table")
         raise Unsupported("builtin %s" % name)
@@ -481,7 +500,7 @@ class Schema:
                 other = eng.as_set(a, st).t
                 u = fresh("U", SetSort)
                 x = fresh("x", Val)
-                st.assume(z3.ForAll([x], z3.Select(u, x) == z3.Or(z3.Select(cur, x), z3.Select(other, x))))
+                st.define(z3.ForAll([x], z3.Select(u, x) == z3.Or(z3.Select(cur, x), z3.Select(other, x))))
                 cur = u
             self._wb(obj, sv_set(cur), st)
             return sv_none()
@@ -493,7 +512,7 @@ class Schema:
                 other = eng.as_set(a, st).t
                 u = fresh("U", SetSort)
                 x = fresh("x", Val)
-                st.assume(z3.ForAll([x], z3.Select(u, x) == z3.Or(z3.Select(cur, x), z3.Select(other, x))))
+                st.define(z3.ForAll([x], z3.Select(u, x) == z3.Or(z3.Select(cur, x), z3.Select(other, x))))
                 cur = u
             return sv_set(cur)
         raise Unsupported("set.%s" % name)
@@ -559,9 +578,9 @@ class Schema:
             nonempty = content != EmptySet
             w1 = fresh("wlo", Val)
             w2 = fresh("whi", Val)
-            st.assume(z3.Implies(nonempty, z3.And(
+            st.define(z3.Implies(nonempty, z3.And(
                 z3.ForAll([v], z3.Implies(z3.Select(content, v), z3.And(lo <= ivb(v), ive(v) <= hi))),
                 z3.Select(content, w1), ivb(w1) == lo, z3.Select(content, w2), ive(w2) == hi)))
-            st.assume(z3.Implies(z3.Not(nonempty), z3.And(lo == 0, hi == 0)))
+            st.define(z3.Implies(z3.Not(nonempty), z3.And(lo == 0, hi == 0)))
             return sv_int({"begin": lo, "end": hi, "span": hi - lo}[name])
         raise Unsupported("IntervalTree.%s" % name)
